@@ -236,3 +236,16 @@ reg(Check("C11", "model_checking",
           engine="E2 xstate", claimed=False,
           parts=[Part("session", SRV, "^TestVerifC11Session$", instr=True, gomaxprocs=16, deadline=(300, 2400)),
                  Part("msg", SRV, "^TestVerifC11Msg$", instr=True, gomaxprocs=16, deadline=(400, 3000))]))
+
+reg(Check("C14", "model_checking",
+          "all schedules up to the deviation bound (quick 1, thorough 2) of 9 colliding scenarios on one group and one p2p topic with 5 sessions: "
+          "leave|pub|sub, sub|disconnect, leave|eviction, del-sub|unsub|pub, del-topic|sub|pub, two subs in the load gap, idle unload|sub|disconnect, "
+          "p2p unsub|unsub|resub, del-user|sub me; atomics loads are scheduling points; oracle at quiescence after virtual time has "
+          "settled: every sub/leave/del answered, Session.subs <-> Topic.sessions symmetric, terminated sessions detached, online counters, "
+          "request slots released, no deadlock / panic / livelock; plus deleted topics stay deleted on every transition of the acl and p2p searches",
+          ["deviation-bounded; map iteration order fixed (sorted)", "data-race freedom of the named shared data is not decided (no happens-before detector was built); see DESIGN.md"],
+          text="Stateless model checking of the real goroutines under a controlled scheduler with iterative deviation bounding.",
+          note="trusted: instrumenter + scheduler shim (self-tested)", technique="stateless model checking of the implementation (controlled scheduler, deviation bounding)",
+          engine="E1 detsched", claimed=False,
+          parts=[Part("races", SRV, "^TestVerifC14Races$", instr=True, shards=(16, 16), deadline=(300, 3000)),
+                 Part("acl", SRV, "^TestVerifC14Acl$", instr=True, gomaxprocs=16, deadline=(300, 2400))]))
